@@ -9,7 +9,6 @@ boundary (crash injector, DESIGN.md 3.6).
 import os, shutil, json, hashlib, sqlite3 as real_sqlite3
 from .. import modelrun
 from ..translators import c13_store as tr
-from .. import c13_tracecheck as tracecheck
 
 ASSUME = [
     "modelled, not verified: SQLite itself (a commit is atomic and durable; reopening a database with a hot "
@@ -19,13 +18,17 @@ ASSUME = [
     "read-back (load(store(x)).serialize() == x.serialize()) but not modelled",
     "keys are as in real use: recipient / sender ids are decimal strings without leading zeros or ints >= 0 "
     "(INTEGER affinity would merge '049' and '49'; recipient -1 is the own identity row)",
-    "tie = fail-closed symbolic interpreter of the store classes (SQL verb/table/key columns/commits per public "
-    "method; helper methods inlined at their call sites with symbolic arguments and return values; writes under "
-    "data-dependent conditions rejected) re-run on every check + trace cross-check (every translated public method "
-    "and every constructor run once on the real class over a tracing connection, row absent / present: observed "
-    "write statements and commits = translated program) + differential traces: at every statement and commit "
-    "boundary of every call the snapshot (db + journal) reopened by a fresh connection equals the model's durable "
-    "database",
+    "tie = two extractions of the per-method SQL programs, re-run on every check: (1) a fail-closed symbolic "
+    "interpreter of the store classes' source (helper methods inlined at their call sites, writes under "
+    "data-dependent conditions rejected); (2) a MEASUREMENT: every public method, every constructor and every "
+    "facade method run on the real classes over a tracing connection (sentinel arguments whose identity is "
+    "recorded per bound parameter, SQLite's own statement trace for commits incl. those issued from C) in the state "
+    "variants absent / present / conflicting row, lists of 0/1/3 elements, fresh / initialised / emptied database. "
+    "When the source is recognised the syntactic programs must reproduce everything measured (coverage."
+    "translator_path = 'syntactic+measured (agree)'); when it is not, the programs are built from the measurement "
+    "provided all variants give one statement/commit skeleton ('measured only (...)'), else the tie is broken. In "
+    "every case + differential traces: at every statement and commit boundary of every call the snapshot (db + "
+    "journal) reopened by a fresh connection equals the model's durable database",
     "conversations continuing across restarts with live ratchets is exercised by C03's simulator, not here",
 ]
 
@@ -53,6 +56,28 @@ class ConnProxy(object):
     def __init__(self, rig, path, kw):
         object.__setattr__(self, "_rig", rig)
         object.__setattr__(self, "_real", real_sqlite3.connect(path, **kw))
+        # SQLite's own statement trace: every COMMIT that really runs is counted, also those issued from C or as
+        # SQL text; a commit the proxy did not intercept (= no crash point taken) is reported as a broken driver
+        self._real.set_trace_callback(self._on_sql)
+
+    def _on_sql(self, text):
+        up = text.lstrip().upper()
+        if up.startswith("COMMIT") or up.startswith("END"):
+            self._rig.c_commits += 1
+
+    # `with conn:` -- sqlite3 commits (only if a transaction is open) or rolls back in C; done here so that the
+    # commit is a crash point like any other
+    def __enter__(self):
+        return self
+
+    def __exit__(self, et, ev, tb):
+        if et is None:
+            if self._real.in_transaction:
+                self.commit()
+        else:
+            self._real.rollback()
+            self._rig.log.append("ROLLBACK")
+        return False
 
     def __setattr__(self, k, v):
         setattr(self._real, k, v)
@@ -72,8 +97,13 @@ class ConnProxy(object):
         self._rig.log.append(verb)
         if verb in WRITE_VERBS:
             self._rig.boundary("stmt")
+        elif verb.rstrip(";") in ("COMMIT", "END"):      # a commit issued as SQL text is a commit boundary too
+            self._rig.py_commits += 1
+            self._rig.boundary("commit")
 
     def commit(self):
+        if self._real.in_transaction:
+            self._rig.py_commits += 1
         self._real.commit()
         self._rig.log.append("COMMIT")
         self._rig.boundary("commit")
@@ -111,6 +141,7 @@ class Rig(object):
         self.conn = None
         self.store = None
         self.log = []
+        self.c_commits = self.py_commits = 0     # COMMITs SQLite ran / COMMITs the proxy intercepted
         self.snaps = []          # per op: list of (kind, dump, api_view or None)
         self.api_probe = None    # callable(fresh_store) -> observation, evaluated on every snapshot
         self._saved = las.sqlite3
@@ -543,6 +574,10 @@ def run_impl(ctx, meta, ops, tag="s"):
                                     "after_crash": _short(api[j])}))
             dumps = [d for (_, d, _) in rig.snaps]
             out.traces.append(dumps)
+            if rig.c_commits != rig.py_commits:
+                out.problems.append(("driver", {"op": idx, "error": "SQLite ran %d COMMITs, the crash injector intercepted "
+                                                "%d: a commit is issued in a way the proxy does not see" % (rig.c_commits, rig.py_commits)}))
+                break
             # --- oracle: atomic, per record, on raw table contents
             first, last = dump_to_dicts(dumps[0]), dump_to_dicts(dumps[-1])
             for bi, d in enumerate(dumps):
@@ -766,22 +801,28 @@ def shrink(ctx, meta, ops, pred):
 def run(ctx):
     meta = None
     try:
-        meta = tr.regenerate()
-        ctx.ties["translator:c13_store"] = "ok"
+        meta = tr.regenerate(scratch=ctx.scratch)
+        ex = meta["extraction"]
     except tr.Unrecognised as e:
+        ex = getattr(e, "extraction", None) or {"path": "none (%s)" % e}
         ctx.ties["translator:c13_store"] = "broken: %s" % e
+    # which extraction produced coq/Gen/C13Programs.v, and what the measurement said about the syntactic one
+    ctx.coverage["translator_path"] = ex["path"]
+    ctx.coverage["extraction"] = {
+        "compared": ex.get("compared", 0), "agree": ex.get("agree", 0), "inconclusive": ex.get("inconclusive", []),
+        "disagree": len(ex.get("disagreements", [])), "syntactic_error": ex.get("syntactic_error"),
+        "measure_error": ex.get("measure_error"), "measured_error": ex.get("measured_error"),
+        "what": "connection mode, schema read back from SQLite, facade delegations, every public method x state "
+                "variants {absent, present, conflicting} (lists: 0/1/3 elements), constructors x {fresh, again, "
+                "emptied, second fresh}: measured programs (statement, key/assigned columns with the identity of every "
+                "bound parameter, commits incl. those issued from C) vs the syntactic programs"}
     if meta is not None:
-        # cheap guard of the (liberal) interpreter: one traced run of every public method / constructor
-        rep = tracecheck.run(meta, tr.REPO, ctx.scratch)
-        ctx.coverage["trace_crosscheck"] = {
-            "runs": rep["runs"], "agree": rep["agree"], "inconclusive": rep["inconclusive"],
-            "disagree": len(rep["disagreements"]), "error": rep["error"],
-            "what": "public methods x {row absent, row present} + constructors x {fresh, again}: observed write "
-                    "statements (verb, table) and commits vs the translated program"}
-        if rep["error"] or rep["disagreements"]:
-            ctx.ties["tracecheck:c13_store"] = "broken: %s" % (rep["error"] or json.dumps(rep["disagreements"][:3]))
+        if ex["path"].startswith("syntactic+measured (agree)") or ex["path"].startswith("measured only"):
+            ctx.ties["translator:c13_store"] = "ok: " + ex["path"][:300]
         else:
-            ctx.ties["tracecheck:c13_store"] = "ok"
+            ctx.ties["translator:c13_store"] = "broken: %s %s" % (ex["path"], json.dumps(ex.get("disagreements", [])[:3])[:600])
+        if ex["path"].startswith("measured only"):
+            ctx.notes.append("coq/Gen/C13Programs.v generated from the MEASURED programs: " + ex["path"])
     ctx.prove()
     exe = ctx.build_model("C13") if meta else None
     model = modelrun.Model(exe) if exe else None
@@ -855,8 +896,8 @@ def run(ctx):
             ctx.coverage["store_ok_computed_by_extracted_model"] = bool(ok)
             model.close()
             ctx.ties["correspondence"] = "ok" if corr_bad == 0 else "broken"
-    for k in ("translator:c13_store", "tracecheck:c13_store"):
-        if ctx.ties.get(k, "ok") != "ok" and not ctx.violations:
+    for k in ("translator:c13_store",):
+        if not ctx.ties.get(k, "ok").startswith("ok") and not ctx.violations:
             ctx.tie_broken_without_input(k, ctx.ties[k])
     if not ctx.proof_ok and not ctx.violations:
         ctx.tie_broken_without_input("theorem:" + ctx.failing_theorem(), ctx.ties.get("proof"))
@@ -891,7 +932,7 @@ def replay(ctx, data):
         print("nothing to replay on the implementation:", json.dumps(case)[:600])
         return 1
     try:
-        meta = tr.regenerate()
+        meta = tr.regenerate(scratch=ctx.scratch)
     except tr.Unrecognised:
         meta = json.load(open(os.path.join(os.path.dirname(tr.GEN_JSON), "C13Programs.last.json")))
     out = run_impl(ctx, meta, case["ops"], "r")
